@@ -112,7 +112,7 @@ def restricted(sv, q, k):
     return sv2, q2, label
 
 
-def compare_parts(p3, p2, rec, tag, skip=(), sigmap=None):
+def compare_parts(p3, p2, rec, tag, skip=(), sigmap=None, population=None):
     s3 = observe.snapshot(p3)
     s2 = observe.snapshot(p2)
     kinds = observe.SLICE_KINDS if "column_labels" in s3 else observe.STRAND_KINDS
@@ -129,7 +129,8 @@ def compare_parts(p3, p2, rec, tag, skip=(), sigmap=None):
                 rec.violation("%s %s: partition %r, reference analysis %r" % (tag, name, a, b),
                               (sigmap or {}).get(name, "raise-" + name))
             continue
-        ok = _same(kind, a, b) or (is_root(name) and roots_close(a, b))
+        ok = _same(kind, a, b) or (is_root(name) and roots_close(
+            a, b, 2.0 * (population or 1) if name.startswith("population") else 1.0))
         if not ok:
             rec.violation("%s %s differs from the analysis of the restricted survey: %s vs %s"
                           % (tag, name, _fmt(a), _fmt(b)),
@@ -198,7 +199,7 @@ def judge_3d(case, rec):
         sv2, q2, label = restricted(sv, q, k)
         p2 = lib.cube(zz9enc.encode(sv2, q2), case["transforms"], case["population"],
                       case["mask_size"]).partitions[0]
-        compare_parts(p3, p2, rec, "slice %d:" % k)
+        compare_parts(p3, p2, rec, "slice %d:" % k, population=case["population"])
         if tdim.kind == "cat":
             label = tdim.labels()[k]  # enum-backed kinds are labelled by their value
         want_name = "%s: %s" % (tvar["name"], label)
